@@ -99,8 +99,12 @@ class Check(PropertyCheck):
                   "§4.2 run choice for every address; textV6_reads_back / textV6_injective / textV4_reads_back_ipaddress / "
                   "connects_to_requested_ip: for EVERY 16-byte address the stored IPv6 text, read by C22's transcription of "
                   "CPython ipaddress.ip_address, is the IPv6 address with exactly the requested 128 bits, no scope — so the "
-                  "text determines the address); method_selection (every offered-method list), greeting_incomplete_silent; "
-                  "reply_wellformed, reject_codes, other_commands_rejected / bind_and_udp_associate_rejected, reject_closes; "
+                  "text determines the address; textV6Py_reads_back / textV6Py_eq_inet_ntop_unless_embedded: the same for CPython's own "
+                  "writer str(IPv6Address), transcribed as textV6Py and tied by the driver op pyv6); method_selection (every "
+                  "offered-method list), greeting_incomplete_silent; reply_wellformed, reject_codes and their whole-history forms "
+                  "other_commands_rejected / bind_and_udp_associate_rejected / unknown_atyp_rejected / unreachable_rejected, "
+                  "reject_closes; outcome_trichotomy (every stream, every segmentation: waiting | rejected+closed | connected to "
+                  "exactly the request with exactly the trailing bytes relayed); "
                   "after_request_relayed_once_in_order; constants_match_code (SOCKS5_* constants regenerated from modes.py). "
                   "The model is tied to the real layer by differential runs (state, buffer, every command in order, the host TEXT "
                   "and port of context.server.address as PREDICTED by the model, bytes given to the child) under whole / "
@@ -124,7 +128,18 @@ class Check(PropertyCheck):
                   "after client EOF during an incomplete handshake is not demanded; an incomplete bad header followed by client EOF may "
                   "be closed without a reply (round 4 corrected the oracle here: it used to demand REP 07 for 05 05 + EOF, a "
                   "header it otherwise allows to stay unanswered until 5 bytes arrived). No case is ever skipped (no Skip()), "
-                  "model_lines never abstains, and known() recognises nothing (no recorded finding).")
+                  "model_lines never abstains, and known() recognises nothing (no recorded finding). Clause table (statement -> theorem "
+                  "/ oracle): 'any bytes, split in any way … outcome does not depend on the segmentation' -> lawful, seg_independent, "
+                  "schedule_independent / outcome(seg)==outcome(whole)==outcome(deferred); 'either rejects … or connects' -> "
+                  "outcome_trichotomy / against_reference kind dispatch; 'replying with the RFC 1928 error code where one applies "
+                  "and closing' -> method_selection, other_commands_rejected, unknown_atyp_rejected, unreachable_rejected, "
+                  "reject_closes / reject branch (stage, codes, closed); 'connects to exactly the requested IPv4, IPv6 or domain "
+                  "destination and port' -> connects_exactly_requested, requested_is_connected, connects_to_requested_text, "
+                  "connects_to_requested_ip / addr_matches + opens + ground truth; 'answers with a well-formed reply' -> "
+                  "reply_wellformed, success_reply_iff_accepted / reply-shape checks; 'relays every byte sent after the request … "
+                  "exactly once and in order' -> after_request_relayed_once_in_order, relayed_only_after_request, "
+                  "deferred_handshake_relays, buffered_request_then_data_relayed / child == trail. Still not tied: the position "
+                  "of the child's Start event; still outside the model: utf-8/backslashreplace decoding of the credentials.")
     technique = "Lean 4 proof (Incremental/Lawful instance, parser inversion, simulation of the deferred machine, inet_ntop text read back with the ipaddress transcription) + differential correspondence through world.py"
     rule = ("streams = greeting [+ RFC1929 auth] + request + trailing data, built from a grammar (70%), with one-field "
             "mutations (wrong version at each stage, 0 methods, missing method, CMD/RSV/ATYP variants, domain length 0/255, "
